@@ -199,7 +199,8 @@ fn child(op: usize, nested: bool, quick_stride: u64, seed: u64, out: i32) -> i32
                     }
                     Err((v, m)) => {
                         wr(out, &format!("{} {}\n", if v { "BAD" } else { "INCONCLUSIVE" }, m));
-                        return 0;
+                        // a delivery may be stuck inside the dispatcher for good: no library call (not even a drop) after this
+                        unsafe { libc::_exit(0) };
                     }
                 }
             }
@@ -243,7 +244,12 @@ fn child(op: usize, nested: bool, quick_stride: u64, seed: u64, out: i32) -> i32
                 }
             }
             let fresh_sig = if op == 0 { fresh.pop().unwrap() } else { 0 };
-            let nested_sig = sig_list[(trials as usize) % sig_list.len()].0;
+            // During a first registration, at the points where the library's handler already is the disposition, the
+            // delivery is one of the very signal being registered (it finds no slot yet and must fall through harmlessly).
+            let after_takeover = op == 0
+                && (matches!(*s, site::REG_AFTER_SIGACTION | site::REG_BEFORE_PUBLISH | site::REG_DONE)
+                    || (occ == 2 && matches!(*s, site::HL_W_LOCKED | site::HL_W_ALLOC | site::HL_W_SWAPPED | site::HL_B_FIRST | site::HL_B_FLIP | site::HL_B_DONE | site::HL_W_FREE | site::HL_W_FREED)));
+            let nested_sig = if after_takeover { fresh_sig } else { sig_list[(trials as usize) % sig_list.len()].0 };
             if nested {
                 director::set_rule(*s, RuleSpec { mode: mode::RAISE, class_mask: class::MUTATOR, ctx: ctx::OUTSIDE, nth: occ, arg: nested_sig as usize, ..Default::default() });
             } else {
@@ -322,11 +328,15 @@ fn child(op: usize, nested: bool, quick_stride: u64, seed: u64, out: i32) -> i32
                         std::thread::yield_now();
                     }
                     if was_reached {
-                        for (sg, name) in sig_list.iter() {
+                        let mut list = sig_list.clone();
+                        if after_takeover {
+                            list.push((fresh_sig, "the signal being registered (no slot yet)"));
+                        }
+                        for (sg, name) in list.iter() {
                             match deliver_to_b(b_pth, b_ktid, *sg, &desc) {
                                 Ok(n) => {
                                     deliveries += 1;
-                                    if !baseline[sg].contains(&n) {
+                                    if baseline.contains_key(sg) && !baseline[sg].contains(&n) {
                                         verdict = Some((true, format!("a delivery of {} ({}) passed {} failpoints, without interference it passes {:?}, while {}", sg, name, n, baseline[sg], desc)));
                                         break;
                                     }
@@ -373,7 +383,7 @@ fn child(op: usize, nested: bool, quick_stride: u64, seed: u64, out: i32) -> i32
                 was_reached = true;
                 deliveries += 1;
                 let n = A_LAST.load(Ordering::SeqCst);
-                if !baseline[&nested_sig].contains(&n) {
+                if baseline.contains_key(&nested_sig) && !baseline[&nested_sig].contains(&n) {
                     verdict = Some((true, format!("a delivery of {} nested on the thread that is inside {} at {}#{} passed {} failpoints, without interference it passes {:?}", nested_sig, OPS[op], director::site_name(*s), occ, n, baseline[&nested_sig])));
                 }
             }
@@ -382,12 +392,13 @@ fn child(op: usize, nested: bool, quick_stride: u64, seed: u64, out: i32) -> i32
                 reached += 1;
                 wr(out, &format!("KEY {}:{}:{}#{}\n", OPS[op], if nested { "nested" } else { "frozen" }, director::site_name(*s), occ));
             }
-            drop(inst);
-            signal_hook_registry::unregister(prep_id);
             if let Some((v, m)) = verdict {
                 wr(out, &format!("{} {}\n", if v { "BAD" } else { "INCONCLUSIVE" }, m));
-                break 'sweep;
+                // a delivery may be stuck inside the dispatcher for good: no library call (not even a drop) after this
+                unsafe { libc::_exit(0) };
             }
+            drop(inst);
+            signal_hook_registry::unregister(prep_id);
         }
     }
     stop.store(true, Ordering::SeqCst);
@@ -409,14 +420,17 @@ pub fn main(args: &[String]) -> i32 {
     let mut children = 0u64;
     for op in 0..OPS.len() {
         for nested in [false, true] {
-            let res = fork::probe(600_000, false, move |fd| child(op, nested, stride, seed, fd));
+            let res = fork::probe(300_000, false, move |fd| child(op, nested, stride, seed, fd));
             children += 1;
             let label = format!("{} / {}", OPS[op], if nested { "delivery nested on the operating thread" } else { "delivery on another thread, operator frozen" });
             match &res.end {
                 End::Exit(0) => {}
                 End::Timeout => {
-                    inconclusive = Some(format!("{} timed out", label));
-                    continue;
+                    // whatever the child reported before it hung still counts
+                    if !res.out.contains("BAD ") {
+                        inconclusive = Some(format!("{} timed out", label));
+                        continue;
+                    }
                 }
                 other => {
                     bad.push(("freeze-child-died".into(), format!("{}: child ended {:?}: {}", label, other, res.out.lines().last().unwrap_or(""))));
